@@ -482,10 +482,12 @@ func (u *Unit) execCallback(p *Path, x *ssa.Call) {
 			}
 		}
 	}
-	// ghost: remember what the callback returned
+	// ghost: what the callback returned on its n-th call is cbresult_<sort>(f, n), so that a contract can say
+	// "the token holds what the callback returned"
 	if len(rs) == 1 {
 		key := "cbresult_" + sortTag(rs[0].Sort)
-		enc.declFun(key, []string{SInt}, rs[0].Sort)
+		enc.declFun(key, []string{SInt, SInt}, rs[0].Sort)
+		p.assume(Eq(rs[0], App(key, rs[0].Sort, f, Select(p.st.comps["calls"], f))))
 	}
 	u.setResults(p, x, rs)
 }
